@@ -95,6 +95,7 @@ func TestSim(t *testing.T) {
 		rtSeed = uint64(v)
 	}
 	verifReseed(rtSeed, true)
+	k.NoSync = spec.P("race", "") == "1"
 	synctest.Test(t, func(t *testing.T) {
 		w := k.Boot(spec)
 		w.KeepLog = os.Getenv("VERIF_LOG") != ""
@@ -152,7 +153,7 @@ func panicSig(msg string) string {
 func result(r *h.Run, rtSeed uint64) *h.Result {
 	w := r.W
 	res := &h.Result{Prop: w.Spec.Prop, Case: w.Spec.Case, Seed: w.Spec.Seed, Verdict: "ok",
-		Faults: w.Faults, Probes: w.Probes, SimNS: int64(w.Now()), Events: len(w.Events), LogHash: w.LogHash(), Info: r.Info}
+		Faults: w.Faults(), Probes: w.Probes(), SimNS: int64(w.Now()), Events: len(w.Events), LogHash: w.LogHash(), Info: r.Info}
 	res.Violations = r.Violations()
 	if len(res.Violations) > 0 {
 		res.Verdict = "violation"
@@ -169,12 +170,12 @@ func result(r *h.Run, rtSeed uint64) *h.Result {
 	}
 	res.SchedSig = strconv.FormatUint(hsh, 16)
 	nf := 0
-	for _, n := range w.Faults {
+	for _, n := range w.Faults() {
 		nf += n
 	}
-	res.Nontrivial = nf > 0 || len(w.Choices) > 0 || len(w.Spec.Triggers) > 0
+	res.Nontrivial = nf > 0 || len(w.Choices()) > 0 || len(w.Spec.Triggers) > 0
 	if os.Getenv("VERIF_CHOICES") != "" || res.Verdict == "violation" {
-		res.Choices = w.Choices
+		res.Choices = w.Choices()
 	}
 	if w.KeepLog {
 		res.Log = w.Log
@@ -190,10 +191,10 @@ func result(r *h.Run, rtSeed uint64) *h.Result {
 	}
 	if w.Spec.Profile {
 		res.PassSeq = w.PassSeq
-		res.SitePass = w.SitePass
-		res.EvPass = w.EvPass
+		res.SitePass = w.SitePass()
+		res.EvPass = w.EvPass()
 	}
-	res.SitesHit = len(w.SitePass)
+	res.SitesHit = len(w.SitePass())
 	res.RtDraws = verifDraws()
 	return res
 }
